@@ -651,10 +651,29 @@ def classify_xhist(ck, tag, xobs):
     lits = [o["xlit"] for _c, o in xobs]
     shard = max(10, min(200, -(-len(lits) // max(2, common.NCPU - 2))))
     hdr = HEADER + XHEADER_EXTRA
-    bad, errs = common.coq_failing(tag, hdr, XCASE_TY, "xcase_ok", lits, shard=shard)
+    bad, errs = common.coq_failing(tag, hdr, XCASE_TY, "xcase_all_ok", lits, shard=shard)
     for e in errs:
         ck.mismatch("coqc failed on cases file", None, e[1])
-    for i in bad[:5]:
+    rule_bad, model_bad = set(), set()
+    if bad:
+        sub = [lits[i] for i in bad]
+        rb, _ = common.coq_failing(tag + "_rule", hdr, XCASE_TY, "xcase_rule_ok", sub, shard=shard)
+        mb, _ = common.coq_failing(tag + "_mrule", hdr, XCASE_TY, "xcase_model_rule_ok", sub, shard=shard)
+        rule_bad = set(bad[j] for j in rb)
+        model_bad = set(bad[j] for j in mb)
+    for i in sorted(rule_bad)[:5]:
+        c, o = xobs[i]
+        ck.violation("the State / Number Restarts columns of status.csv do not follow the dispatch table for a "
+                     "delivered scheduler report (ExecRows.report_rule: TIMEDOUT without restart command or after a "
+                     "cancel request shows TIMEDOUT, exhausted budget FAILED, ...); pins=%s; status.csv after the "
+                     "polls: %s" % (json.dumps([[p["cancel"], p["q"], p["reports"]] for p in c["hist"]["pins"]])[:600],
+                                    json.dumps([(x or "").split("\n")[1:] for x in o["texts"]])[:1200]),
+                     strip_case(c))
+    for i in sorted(model_bad - rule_bad)[:3]:
+        c, o = xobs[i]
+        ck.mismatch("the (regenerated) execution model ExecGen.v no longer follows the hand-written dispatch table "
+                    "ExecRows.report_rule on this history", strip_case(c))
+    for i in [j for j in bad if j not in rule_bad and j not in model_bad][:5]:
         c, o = xobs[i]
         which = common.coq_eval(tag + "_why", hdr, "xcase_first_bad %s" % o["xlit"])
         k = None
@@ -1593,13 +1612,20 @@ def replay(ck, path):
             rc = rc or (0 if ok else 1)
         from harness import exec_harness as XH
         h = case["hist"]
-        if polls and len(polls) == len(h["pins"]) and all(o["error"] is None for _d, o in polls):
+        if polls and len(polls) <= len(h["pins"]) and all(o["error"] is None for _d, o in polls):
+            # the run stops at the first non-RUNNING study status; the delivered pins are in the descriptions
+            used = polls[-1][0]["hist"]["pins"]
             xlit = "(%s, %s, %s, %s)" % (XH.g_cfg(h["cfg"]), XH.g_nodes(h["nodes"]),
-                                         common.g_list([XH.g_pin(p) for p in h["pins"]]),
+                                         common.g_list([XH.g_pin(p) for p in used]),
                                          common.g_list([g_parsed(o["parsed"]) for _d, o in polls]))
             hdr = HEADER + XHEADER_EXTRA
             out = common.coq_eval("C12_replay", hdr, "xcase_ok %s" % xlit)
             okx = "true" in out.split(":")[0]
+            out = common.coq_eval("C12_replay", hdr, "(xcase_rule_ok %s, xcase_model_rule_ok %s)" % (xlit, xlit))
+            okr = "false" not in out.split(":")[0]
+            print("dispatch table per delivered report (implementation's columns, model's rows):",
+                  " ".join(out.split(":")[0].split()))
+            rc = rc or (0 if okr else 1)
             rows = common.coq_eval("C12_replay", hdr,
                                    "let '(cf, g, pins, _) := %s in map (fun o : ExecRun.obs => snd (fst o)) "
                                    "(ExecRun.run cf g (init g) pins)" % xlit)
